@@ -27,7 +27,7 @@ def run(tier, wd):
     # 1. build the concrete cases: token x type x role x route
     cases, meta = [], []
     for btyp, toks in EDGE.items():
-        toks = list(toks) + [rand_token(rnd, btyp) for _ in range(20 if q else 1500)]
+        toks = list(toks) + [rand_token(rnd, btyp) for _ in range(20 if q else 5000)]
         for typ in [t for t in V.BUILTIN if V.base(t) == btyp]:
             multi = typ in V.MULTI
             good = V.VALID[btyp][0]
